@@ -21,7 +21,10 @@ from mc.ref import schema as S
 
 PLAN = {
     "quick": ([("D3", 2), ("C2", 2), ("M5", 2), ("D1", 2), ("D2", 2), ("D0", 2), ("C1", 2), ("L1", 2), ("G1", 2), ("M1", 2), ("M2", 2)], 1),
-    "thorough": ([("D3", 3), ("C2", 3), ("K1", 2), ("M5", 3), ("D1", 3), ("D2", 2), ("D0", 3), ("C1", 3), ("L1", 3), ("G1", 2), ("M1", 3), ("M2", 3)], 2),
+    # thorough = two phases (3 free calls x every single mutation, then 2 free calls x every pair of mutations): 3 free calls x
+    # pairs of mutations would be ~30 times the first phase (hours)
+    "thorough": ([("D3", 3), ("C2", 3), ("K1", 2), ("M5", 3), ("D1", 3), ("D2", 2), ("D0", 3), ("C1", 3), ("L1", 3), ("G1", 2), ("M1", 3), ("M2", 3)], 1),
+    "thorough-2": ([("D3", 2), ("C2", 2), ("M5", 2), ("D1", 2), ("D2", 2), ("D0", 2), ("C1", 2), ("L1", 2), ("G1", 2), ("M1", 2), ("M2", 2)], 2),
 }
 _DEPTH = 1
 _TIER = "quick"
@@ -243,6 +246,18 @@ def run(tier: str, seed: int) -> Result:
         case["depth"] = _DEPTH
         case["tier"] = tier
         col.add(sig, msg, case)
+    if tier == "thorough":
+        plan2, _DEPTH = PLAN["thorough-2"]
+        r2 = e2.explore(SCENARIOS, oracle, plan2)
+        for sig, msg, case in r2.fails:
+            case["depth"] = _DEPTH
+            case["tier"] = tier
+            col.add(sig, msg, case)
+        r.states += r2.states
+        r.transitions += r2.transitions
+        r.complete_programs += r2.complete_programs
+        r.nontrivial += r2.nontrivial
+        plan = [plan, plan2]
     n_ladder = run_ladder(tier, col)
     efails, n_ext = check_extensions()
     for sig, msg in efails:
@@ -260,7 +275,7 @@ def run(tier: str, seed: int) -> Result:
         "samples": r.samples or [{"scenario": "D1", "program": []}],
         "exhaustive": True,
         "plan": plan,
-        "mutation_depth": _DEPTH,
+        "mutation_depth": _DEPTH if tier != "thorough" else "phase 1: depth 1 over the 3-free-call plan; phase 2: depth 2 over the 2-free-call plan",
         "complete_programs": r.complete_programs,
         "programs_where_a_builder_call_raised": r.builder_raised,
         "extension_and_package_documents": n_ext,
